@@ -5,5 +5,5 @@ WT=/tmp/wt/dbg
 [ -d $WT ] || git -C /repo worktree add -q --detach $WT HEAD
 git -C $WT checkout -q --detach $(git -C /repo rev-parse HEAD) 2>/dev/null
 git -C $WT checkout -q -- . ; git -C $WT apply /verif/seeded/$id/patch.diff || exit 9
-cd /verif && VF_REPO=$WT ./check "$@" 2>&1 | grep -v "Warning\|^  "
+cd /verif && VF_OUT=/tmp/wt/mut_out VF_REPO=$WT ./check "$@" 2>&1 | grep -v "Warning\|^  "
 git -C $WT checkout -q -- .
